@@ -169,6 +169,68 @@ theorem readToks_fmtLoop (cols mb : Nat) : ∀ (fs : List (List Char)) (n : Nat)
           · left; rfl
 
 
+/-- the sharper form of `TokRel`: behind the body comes nothing, the line break, or (last
+field only) the line break and what follows the array up to the next blank. -/
+def TokRelP (tail f tok : List Char) : Prop :=
+  ∃ extra, tok = dropSp f ++ extra ∧ (extra = [] ∨ extra = ['\n'] ∨ extra = '\n' :: tokOf tail)
+
+theorem readToks_fmtLoop_plain (cols mb : Nat) : ∀ (fs : List (List Char)) (n : Nat) (tail : List Char),
+    (∀ f ∈ fs, GoodField f) →
+    ∃ toks, readToks fs.length (Smry.fmtLoop cols mb n fs ++ tail) = some toks ∧
+      All2 (TokRelP tail) fs toks := by
+  intro fs
+  induction fs with
+  | nil => intro n tail _; exact ⟨[], rfl, All2.nil⟩
+  | cons f fs ih =>
+    intro n tail hg
+    have hf : GoodField f := hg f (by simp)
+    have hg' : ∀ g ∈ fs, GoodField g := fun g hgm => hg g (by simp [hgm])
+    -- the text behind the field
+    generalize hR : (if (n + 1) % cols = 0 ∨ (n + 1) % mb = 0 then ['\n'] else []) ++
+        (Smry.fmtLoop cols mb (if (n + 1) % mb = 0 then 0 else (n + 1)) fs ++ tail) = R
+    have htext : Smry.fmtLoop cols mb n (f :: fs) ++ tail = f ++ R := by
+      rw [← hR]; simp [Smry.fmtLoop, List.append_assoc]
+    rw [htext, List.length_cons]
+    have hd := dropSp_field_append hf R
+    cases hb : dropSp f with
+    | nil => exact absurd hb hf.body_ne
+    | cons c r =>
+      have hns : NoSp (c :: r) := hb ▸ hf.body_nosp
+      rw [hb] at hd
+      simp only [readToks, hd, List.cons_append]
+      rw [← List.cons_append, tokOf_append hns, afterTok_append hns]
+      cases fs with
+      | nil =>
+        have hR' : R = '\n' :: tail := by
+          rw [← hR, ← List.append_assoc, fmtLoop_last]; rfl
+        refine ⟨[c :: r ++ tokOf R], ?_, ?_⟩
+        · simp [readToks]
+        · refine All2.cons ⟨tokOf R, by rw [hb], Or.inr (Or.inr ?_)⟩ All2.nil
+          rw [hR']; simp [tokOf, List.takeWhile_cons]
+      | cons f2 fs' =>
+        have hf2 : GoodField f2 := hg' f2 (by simp)
+        obtain ⟨x, hx⟩ : ∃ x, f2 = ' ' :: x := by
+          cases f2 with
+          | nil => have := hf2.lead; simp at this
+          | cons a x => have := hf2.lead; simp at this; exact ⟨x, by rw [this]⟩
+        obtain ⟨toks, ht, hrel⟩ := ih (if (n + 1) % mb = 0 then 0 else (n + 1)) tail hg'
+        generalize hY : Smry.fmtLoop cols mb (if (n + 1) % mb = 0 then 0 else (n + 1)) (f2 :: fs') ++ tail = Y at ht hR
+        obtain ⟨y, hy⟩ : ∃ y, Y = ' ' :: y := by
+          rw [← hY, hx]; simp [Smry.fmtLoop]
+        have hnl : NoSp (if (n + 1) % cols = 0 ∨ (n + 1) % mb = 0 then ['\n'] else []) := by
+          intro ch hch; split at hch <;> simp at hch; subst hch; decide
+        have htok : tokOf R = (if (n + 1) % cols = 0 ∨ (n + 1) % mb = 0 then ['\n'] else []) := by
+          rw [← hR, tokOf_append hnl, hy]; simp [tokOf]
+        have haft : afterTok R = Y := by
+          rw [← hR, afterTok_append hnl, hy]; simp [afterTok]
+        refine ⟨(c :: r ++ tokOf R) :: toks, ?_, ?_⟩
+        · rw [haft, readToks_dropSp, ht]
+        · refine All2.cons ⟨tokOf R, by rw [hb], ?_⟩ hrel
+          rw [htok]; split
+          · right; left; rfl
+          · left; rfl
+
+
 /-! ### decimal digits: `os << int` against `std::stoi` -/
 
 theorem digit_toNat : ∀ d, d < 10 → (Char.ofNat (48 + d)).toNat - 48 = d := by decide
